@@ -8,6 +8,7 @@ import Proofs.Lemmas.PipelineInvB
 import Proofs.Lemmas.PipelineInvC
 import Proofs.Lemmas.PipelineLog
 import Proofs.Lemmas.PipelineInvR2
+import Proofs.Lemmas.PipelineTerm
 namespace Wpull.Pipeline
 
 /-! ## helper lemmas -/
@@ -297,6 +298,48 @@ theorem returns_after_stop {c : Cfg} (hfx : c.fx = Fix.all) {conc0 : Nat} {s : S
   have hps := (inv_reach hfx hr).2.2.r0 hstop
   exact ⟨hps, no_hang hfx hr hq (fun h => hps h.1)⟩
 
+
+/-! ### termination -/
+
+/-- `IStep s' s`: `s` is reachable and `s'` is the result of one internal step (a step of the
+producer, of `process()`, of a worker, or a task completing/raising — not `stop()` / `concurrency = n`). -/
+def IStep (c : Cfg) (conc0 : Nat) (s' s : St) : Prop :=
+  Reach c conc0 s ∧ ∃ a, a.internal = true ∧ step c s a = some s'
+
+/-- **No livelock (termination by a measure).**  The internal-step relation on reachable states is
+well founded: the pair (rank, potential) — rank: not started > running > stopping/stopped; potential:
+remaining source items, item phases, producer pc, pills, idle workers, unreaped workers, main pc,
+workers still to be created — decreases lexicographically on every internal step. -/
+theorem terminates {c : Cfg} (hfx : c.fx = Fix.all) (conc0 : Nat) : WellFounded (IStep c conc0) := by
+  have hwf : WellFounded (InvImage (Prod.Lex (· < ·) (· < ·)) (fun s : St => (rank s, phi c s))) :=
+    InvImage.wf _ (Prod.lex Nat.lt_wfRel Nat.lt_wfRel).wf
+  refine Subrelation.wf ?_ hwf
+  intro s' s ⟨hr, a, ha, hs⟩
+  have hd := decr_step hfx (inv_reach hfx hr).1 ha hs
+  simp only [InvImage]
+  rcases hd with h | ⟨h1, h2⟩
+  · exact Prod.Lex.left _ _ h
+  · rw [h1]; exact Prod.Lex.right _ h2
+
+/-- **Always finishes.**  There is no infinite run of internal steps: between two control calls
+(`stop()`, `concurrency = n`) the pipeline makes finitely many steps, and with `no_hang` the state in
+which it comes to rest has `process()` completed (or is paused on purpose). -/
+theorem no_infinite_internal_run {c : Cfg} (hfx : c.fx = Fix.all) {conc0 : Nat} (f : Nat → St)
+    (h0 : Reach c conc0 (f 0)) : ¬ ∀ i, ∃ a, a.internal = true ∧ step c (f i) a = some (f (i + 1)) := by
+  intro hall
+  have hreach : ∀ i, Reach c conc0 (f i) := by
+    intro i
+    induction i with
+    | zero => exact h0
+    | succ i ih => obtain ⟨a, _, hs⟩ := hall i; exact Reach.step a ih hs
+  have key : ∀ s, Acc (IStep c conc0) s → ∀ i, f i = s → False := by
+    intro s hacc
+    induction hacc with
+    | intro s _ ih =>
+      intro i hi
+      obtain ⟨a, ha, hs⟩ := hall i
+      exact ih (f (i + 1)) ⟨hi ▸ hreach i, a, ha, hi ▸ hs⟩ (i + 1) rfl
+  exact key (f 0) ((terminates hfx conc0).apply (f 0)) 0 rfl
 
 /-! ### witnesses: non-vacuity, and the unrepaired code -/
 
